@@ -13,7 +13,13 @@
    hw [[a c]..] EI SI TOT N R         handle_waiting
    mine LB STEP LEN W | resp LB STEP LEN W | range LB UB D I
    suos NI [tid..]                    Manager.send_up_or_schedule_tasks (upstream = -7)
-   uup NI LAST R                      Manager.update_upstream_idle_workers *)
+   uup NI LAST R                      Manager.update_upstream_idle_workers
+   manager topology (rt/SchedTree.v):
+   tinit [NW..]                       server + one manager per entry with NW workers, answers the state
+   ttop csub .. | ttop ccancel A | ttop srecv I [SH] [RS]     TTop (flat event at the server)
+   twk I wrecv J WAKE | twk I wfin J T | ... | twk I widle J  TWorker I (flat worker event under manager I)
+   tma I [SH] [RS] | tmb I J [SH] [RS]                        TMgrAbove / TMgrBelow
+     -> "OK <tstate> <server sends> <manager sends>" | "DISABLED" | "FAULT <exn>" *)
 open Common
 open Sched_model
 
@@ -93,8 +99,52 @@ let vaction = function
 
 let vres f = function Ok a -> f a | Raise e -> A (vexn e)
 
+let event_of = function
+  | [A "csub"; ts; sh; rs] -> Some (EClientSubmit (tasks_of ts, nats sh, zs rs))
+  | [A "ccancel"; I a] -> Some (EClientCancel (z_of_int a))
+  | [A "srecv"; I w; sh; rs] -> Some (EServerRecv (nat_of_int w, nats sh, zs rs))
+  | [A "wrecv"; I w; I wake] -> Some (EWorkerRecv (nat_of_int w, wake <> 0))
+  | [A "wfin"; I w; I t] -> Some (EWorkerFinish (nat_of_int w, z_of_int t))
+  | [A "wsub"; I w; t] -> Some (EWorkerSubmit (nat_of_int w, task_of t))
+  | [A "wmap"; I w; ts] -> Some (EWorkerMap (nat_of_int w, tasks_of ts))
+  | [A "wcancel"; I w; I a] -> Some (EWorkerCancel (nat_of_int w, z_of_int a))
+  | [A "wdrop"; I w; I t] -> Some (EWorkerDrop (nat_of_int w, z_of_int t))
+  | [A "widle"; I w] -> Some (EWorkerIdle (nat_of_int w))
+  | _ -> None
+
+let vemp e = L [vz e.e_total; vz e.e_num_tasks; vz e.e_num_idle; vcache e.e_cache]
+let vnode s = L [vz s.s_lb; vz s.s_step; vz s.s_num_idle; vz s.s_total; L (List.map vemp s.s_emps)]
+let vdowns ds = L (List.map (fun d -> L (List.map vdmsg d)) ds)
+let vups us = L (List.map (fun u -> L (List.map vumsg u)) us)
+let vwk k = L [vopt k.w_mrrs; vtids k.w_held; vbool k.w_blocked; vzs k.w_cancelled]
+
+let vtstate (st : tsys) =
+  L [ vnode st.t_srv; vdowns st.t_sm; vups st.t_ms;
+      L (List.map (fun m -> L [vnode m.m_node; vz m.m_last; vopt m.m_mrrs; vdowns m.m_downs; vups m.m_ups;
+                               L (List.map vwk m.m_wks)]) st.t_mgrs);
+      vbool (tquiescent st) ]
+
+let tcur = ref (tinit [])
+
+let tev e =
+  let st = !tcur in
+  match tstep st e with
+  | Done st' ->
+    let ss = drop (List.length st.t_slog) st'.t_slog in
+    let ws = drop (List.length st.t_wlog) st'.t_wlog in
+    tcur := st';
+    "OK " ^ show (vtstate st') ^ " " ^ show (L (List.map (fun (i, ts) -> L [vnat i; vtids ts]) ss))
+    ^ " " ^ show (L (List.map (fun (i, (j, ts)) -> L [vnat i; vnat j; vtids ts]) ws))
+  | Disabled -> "DISABLED"
+  | Fault e -> "FAULT " ^ vexn e
+
 let handle line =
   match parse line with
+  | [A "tinit"; nws] -> tcur := tinit (nats nws); "OK " ^ show (vtstate !tcur) ^ " [] []"
+  | A "ttop" :: rest -> (match event_of rest with Some e -> tev (TTop e) | None -> "BADCMD")
+  | A "twk" :: I i :: rest -> (match event_of rest with Some e -> tev (TWorker (nat_of_int i, e)) | None -> "BADCMD")
+  | [A "tma"; I i; sh; rs] -> tev (TMgrAbove (nat_of_int i, nats sh, zs rs))
+  | [A "tmb"; I i; I j; sh; rs] -> tev (TMgrBelow (nat_of_int i, nat_of_int j, nats sh, zs rs))
   | [A "init"; I lb; I n] -> cur := init (z_of_int lb) (nat_of_int n); stack := []; "OK " ^ show (vstate !cur) ^ " []"
   | [A "save"] -> stack := !cur :: !stack; "SAVED"
   | [A "restore"] -> (match !stack with s :: _ -> cur := s; "RESTORED" | [] -> "EMPTY")
